@@ -1,8 +1,9 @@
 (* C07, full form for the converter: on programs of the shape the validator and the preprocessing
-   guarantee (Gen/Wf.v, strong form) the model of convert.go never reaches ANY Panic site:
-   neither an unchecked map / pointer dereference nor an out-of-range flatten index. *)
+   guarantee and whose positions are inside their sources (Gen/Wf.v, strong form) the model of
+   convert.go never reaches ANY Panic site: neither an unchecked map / pointer dereference nor an
+   out-of-range flatten index nor the line index of parsePrecedingComment. *)
 From Verif Require Import Base.Str Gen.Consts Gen.Casing Gen.Enum Gen.Gql Gen.Doc Gen.Directive Gen.Convert Gen.Wf
-  Proofs.ConvertProofs Proofs.FlattenProofs.
+  Proofs.DocProofs Proofs.ConvertProofs Proofs.DirectiveProofs Proofs.FlattenProofs.
 From Coq Require Import ZArith Lia.
 
 Definition np_res {A} (r : res A) : Prop := match r with Panic _ => False | _ => True end.
@@ -31,7 +32,7 @@ Section Full.
   Variable srcs : list (list lkind).
 
   Hypothesis Hsch : schema_okb sch = true.
-  Hypothesis Hfr : frags_okb2 sch frags = true.
+  Hypothesis Hfr : frags_okb2 sch frags srcs = true.
 
   Ltac npr :=
     repeat first
@@ -53,7 +54,7 @@ Section Full.
     clear Hsch Hfr. induction frags as [|f r IH]; cbn; [discriminate|].
     destruct (str_eqb (fr_name f) n); [intro H; injection H as <-; left; reflexivity | intro H; right; exact (IH H)].
   Qed.
-  Lemma frag_ok_of_find n fr : find_fragment frags n = Some fr -> frag_okb2 sch frags fr = true.
+  Lemma frag_ok_of_find n fr : find_fragment frags n = Some fr -> frag_okb2 sch frags srcs fr = true.
   Proof. intro H. apply find_fragment_in in H. unfold frags_okb2 in Hfr. rewrite forallb_forall in Hfr. exact (Hfr fr H). Qed.
   Lemma possible_in d i : In i (possible_types sch d) -> In i sch.
   Proof. unfold possible_types. destruct (td_kind d); try (intros []); intro H; apply filter_In in H; exact (proj1 H). Qed.
@@ -62,7 +63,7 @@ Section Full.
 
   (* ---- the directive path ---- *)
   Lemma validate_np n D :
-    (match n with NField tb sub => is_some (find_type sch tb) = true /\ sels_okb2 sch frags sub = true | _ => True end) ->
+    (match n with NField tb sub => is_some (find_type sch tb) = true /\ exists src, sels_okb2 sch frags srcs src sub = true | _ => True end) ->
     np_res (validate sch frags n D).
   Proof.
     intro Hn. unfold validate.
@@ -71,22 +72,24 @@ Section Full.
     - npr.
     - npr.
     - npr.
-    - destruct Hn as [Hty Hsub].
+    - destruct Hn as [Hty [src Hsub]].
       destruct (is_set (d_omitempty (fd_main D))); [exact I|].
       destruct (find_type sch tb) as [typ|]; [|discriminate Hty].
       destruct (is_set (d_struct (fd_main D)) && negb (validate_struct_option typ sub)); [exact I|].
       destruct (is_set (d_flatten (fd_main D))); [|npr].
-      pose proof (flat_cases sch frags Hfr typ sub Hsub) as Hfc.
+      pose proof (flat_cases sch frags srcs Hfr typ src sub Hsub) as Hfc.
       destruct (validate_flatten_option sch frags typ sub); [exact I | npr | contradiction].
     - exact I.
   Qed.
 
   Lemma pp_np n key pos Q :
-    (match n with NField tb sub => is_some (find_type sch tb) = true /\ sels_okb2 sch frags sub = true | _ => True end) ->
+    (match n with NField tb sub => is_some (find_type sch tb) = true /\ exists src, sels_okb2 sch frags srcs src sub = true | _ => True end) ->
+    pos_in_range srcs pos ->
     np_res (parse_preceding sch frags srcs n key pos Q).
   Proof.
-    intro Hn. unfold parse_preceding. apply np_bind.
-    - destruct pos as [[s line]|]; [apply no_crash_np, scan_total | exact I].
+    intros Hn Hp. unfold parse_preceding. apply np_bind.
+    - destruct pos as [[s line]|]; [|exact I]. cbn in Hp.
+      destruct (lines_above_pos_ok _ _ _ Hp) as [above ->]. cbn [bind]. apply no_crash_np, scan_total.
     - intros [D has] _. apply np_bind.
       + destruct has; [apply validate_np, Hn | exact I].
       + intros u _. destruct Q as [q|]; [|exact I]. destruct (typename_bind_conflict _); exact I.
@@ -468,7 +471,7 @@ Section Full.
 
   (* when validateFlattenOption returned an index, the converted fields have that index *)
   Lemma css_index f src prefix sels typ Q tm fields tm1 x :
-    flat_shape sch frags typ sels x -> forallb (sel_okb2 sch frags) sels = true ->
+    flat_shape sch frags typ sels x -> forallb (sel_okb2 sch frags srcs src) sels = true ->
     convert_selection_set sch cfg frags srcs f src prefix sels typ Q tm = Ok (fields, tm1) ->
     exists i fl, x = Some i /\ nth_error fields i = Some fl.
   Proof.
@@ -504,7 +507,7 @@ Section Full.
 
   (* the tail after a selection set was converted: flatten index or registration *)
   Lemma flat_tail_np {A} f src prefix sels typ Q tm fields tm1 (flag : bool) (k : res A) (mk : gofield -> res A) s1 s2 s3 :
-    sels_okb2 sch frags sels = true ->
+    sels_okb2 sch frags srcs src sels = true ->
     convert_selection_set sch cfg frags srcs f src prefix sels typ Q tm = Ok (fields, tm1) ->
     np_res k -> (forall fl, np_res (mk fl)) ->
     np_res (match (if flag then validate_flatten_option sch frags typ sels else FlatErr) with
@@ -515,22 +518,22 @@ Section Full.
             end).
   Proof.
     intros Hok Hcss Hk Hmk. destruct flag; [|exact Hk].
-    pose proof (flat_cases sch frags Hfr typ sels Hok) as Hfc.
+    pose proof (flat_cases sch frags srcs Hfr typ src sels Hok) as Hfc.
     destruct (validate_flatten_option sch frags typ sels) as [|x|]; [exact Hk | | contradiction].
     pose proof Hok as Hok2. unfold sels_okb2 in Hok2. apply Bool.andb_true_iff in Hok2. destruct Hok2 as [_ Hall].
     destruct (css_index _ _ _ _ _ _ _ _ _ _ Hfc Hall Hcss) as [i [fl [-> Hn]]]. rewrite Hn. apply Hmk.
   Qed.
 
-  Definition sels_ok (sels : list sel) : Prop := sels_okb2 sch frags sels = true.
+  Definition sels_ok (src : nat) (sels : list sel) : Prop := sels_okb2 sch frags srcs src sels = true.
 
   Theorem convert_np : forall f,
-    (forall src prefix t sels opts Q tm, ty_okb sch t = true -> sels_ok sels ->
+    (forall src prefix t sels opts Q tm, ty_okb sch t = true -> sels_ok src sels ->
        np_res (convert_type sch cfg frags srcs f src prefix t sels opts Q tm))
-    /\ (forall src prefix def sels opts Q tm, In def sch -> sels_ok sels ->
+    /\ (forall src prefix def sels opts Q tm, In def sch -> sels_ok src sels ->
        np_res (convert_definition sch cfg frags srcs f src prefix def sels opts Q tm))
-    /\ (forall src prefix sels containing Q tm, sels_ok sels ->
+    /\ (forall src prefix sels containing Q tm, sels_ok src sels ->
        np_res (convert_selection_set sch cfg frags srcs f src prefix sels containing Q tm))
-    /\ (forall fr tm, frag_okb2 sch frags fr = true -> np_res (convert_named_fragment sch cfg frags srcs f fr tm)).
+    /\ (forall fr tm, frag_okb2 sch frags srcs fr = true -> np_res (convert_named_fragment sch cfg frags srcs f fr tm)).
   Proof.
     induction f as [|f (IHt & IHd & IHs & IHn)].
     - repeat split; intros; exact I.
@@ -591,24 +594,28 @@ Section Full.
         rewrite forallb_forall in Hs. pose proof (Hs s Hin) as Hk.
         destruct s as [alias name fty parent extra sub line|cond extra sub line|name extra line]; cbn [sel_okb2] in Hk.
         * apply Bool.andb_true_iff in Hk. destruct Hk as [Hk Hsubs].
+          apply Bool.andb_true_iff in Hk. destruct Hk as [Hk Hl].
           apply Bool.andb_true_iff in Hk. destruct Hk as [Hk Hshape].
           apply Bool.andb_true_iff in Hk. destruct Hk as [Hal Hty].
-          assert (Hsub : sels_okb2 sch frags sub = true) by (unfold sels_okb2; rewrite Hshape, Hsubs; reflexivity).
-          apply np_bind; [apply pp_np; split; [exact (ty_ok_base _ Hty) | exact Hsub]|]. intros D _. cbv zeta.
+          assert (Hsub : sels_okb2 sch frags srcs src sub = true) by (unfold sels_okb2; rewrite Hshape, Hsubs; reflexivity).
+          apply np_bind; [apply pp_np; [split; [exact (ty_ok_base _ Hty) | exists src; exact Hsub] | exact (pos_of_in_range _ _ _ Hl)]|]. intros D _. cbv zeta.
           apply np_bind; [apply IHt; [exact Hty | exact Hsub]|]. intros [[g o] tmy] _. exact I.
         * apply Bool.andb_true_iff in Hk. destruct Hk as [Hk Hsubs].
+          apply Bool.andb_true_iff in Hk. destruct Hk as [Hk Hl].
           apply Bool.andb_true_iff in Hk. destruct Hk as [Hc Hshape].
-          assert (Hsub : sels_okb2 sch frags sub = true) by (unfold sels_okb2; rewrite Hshape, Hsubs; reflexivity).
-          apply np_bind; [apply pp_np; exact I|]. intros D _.
+          assert (Hsub : sels_okb2 sch frags srcs src sub = true) by (unfold sels_okb2; rewrite Hshape, Hsubs; reflexivity).
+          apply np_bind; [apply pp_np; [exact I | exact (pos_of_in_range _ _ _ Hl)]|]. intros D _.
           assert (Hft : exists ft, match cond with [] => Some containing | _ :: _ => find_type sch cond end = Some ft).
           { destruct cond; [eexists; reflexivity|]. destruct (find_type sch (n :: cond)); [eexists; reflexivity | discriminate Hc]. }
           destruct Hft as [ft ->].
           destruct (negb (fragment_matches containing ft)); [exact I|].
           apply np_bind; [apply IHs, Hsub|]. intros [fs tmy] _. exact I.
-        * apply np_bind; [apply pp_np; exact I|]. intros D _.
+        * apply Bool.andb_true_iff in Hk. destruct Hk as [Hk Hl].
+          apply np_bind; [apply pp_np; [exact I | exact (pos_of_in_range _ _ _ Hl)]|]. intros D _.
           destruct (find_fragment frags name) as [fr|] eqn:Ef; [|discriminate Hk].
           pose proof (frag_ok_of_find _ _ Ef) as Hfo. pose proof Hfo as Hfo2. unfold frag_okb2 in Hfo2.
           apply Bool.andb_true_iff in Hfo2. destruct Hfo2 as [Hon _].
+          apply Bool.andb_true_iff in Hon. destruct Hon as [Hon _].
           destruct (find_type sch (fr_on fr)) as [ft|]; [|discriminate Hon].
           destruct (negb (fragment_matches containing ft)); [exact I|].
           apply np_bind; [apply get_type_np|]. intros e _.
@@ -616,8 +623,9 @@ Section Full.
       + (* convertNamedFragment *)
         intros fr tm Hfo. rewrite convert_named_fragment_S. pose proof Hfo as Hfo2. unfold frag_okb2 in Hfo2.
         apply Bool.andb_true_iff in Hfo2. destruct Hfo2 as [Hon Hsel].
+        apply Bool.andb_true_iff in Hon. destruct Hon as [Hon Hl].
         destruct (find_type sch (fr_on fr)) as [typ|]; [|discriminate Hon].
-        apply np_bind; [apply pp_np; exact I|]. intros D _.
+        apply np_bind; [apply pp_np; [exact I | exact (pos_of_in_range _ _ _ Hl)]|]. intros D _.
         apply np_bind; [apply IHs, Hsel|]. intros [fields tm1] Ecss.
         eapply flat_tail_np; [exact Hsel | exact Ecss | | intros; exact I].
         destruct (td_kind typ); try exact I.
@@ -631,20 +639,22 @@ Section Full.
   Qed.
 
   Lemma convert_arguments_np o Q tm :
-    forallb (fun v => ty_okb sch (vd_type v)) (op_vars o) = true -> np_res (convert_arguments sch cfg frags srcs o Q tm).
+    forallb (fun v => ty_okb sch (vd_type v) && pos_okb srcs (op_src o) (vd_line v)) (op_vars o) = true ->
+    np_res (convert_arguments sch cfg frags srcs o Q tm).
   Proof.
     intro Hv. unfold convert_arguments. destruct (op_vars o) as [|v0 vs] eqn:Ev; [exact I|]. cbv zeta.
     apply np_bind.
     - apply np_mfold. intros [done tmx] v Hin. destruct (mem_str (vd_name v) go_keywords); [exact I|].
-      apply np_bind; [apply pp_np; exact I|]. intros D _.
+      rewrite forallb_forall in Hv. pose proof (Hv v Hin) as Hvv. apply Bool.andb_true_iff in Hvv. destruct Hvv as [Hty Hl].
+      apply np_bind; [apply pp_np; [exact I | exact (pos_of_in_range _ _ _ Hl)]|]. intros D _.
       apply np_bind.
-      + apply (proj1 (convert_np FUEL)); [|reflexivity]. rewrite forallb_forall in Hv. exact (Hv v Hin).
+      + apply (proj1 (convert_np FUEL)); [exact Hty | reflexivity].
       + intros [[g opt] tmy] _. exact I.
     - intros [fields tm1] _. apply np_bind; [apply add_type_np|]. intros [t tm2] _. destruct t; exact I.
   Qed.
 
   Lemma convert_operation_np o Q tm :
-    is_some (root_type sch (op_kind o)) = true -> sels_okb2 sch frags (op_sel o) = true ->
+    is_some (root_type sch (op_kind o)) = true -> sels_okb2 sch frags srcs (op_src o) (op_sel o) = true ->
     np_res (convert_operation sch cfg frags srcs o Q tm).
   Proof.
     intros Hr Hs. unfold convert_operation. cbv zeta.
@@ -653,18 +663,19 @@ Section Full.
     eapply flat_tail_np; [exact Hs | exact Ecss | apply add_type_np | intros; exact I].
   Qed.
 
-  Lemma add_operation_np acc o : op_okb2 sch frags o = true -> np_res (add_operation sch cfg frags srcs acc o).
+  Lemma add_operation_np acc o : op_okb2 sch frags srcs o = true -> np_res (add_operation sch cfg frags srcs acc o).
   Proof.
     intro Ho. unfold op_okb2 in Ho. apply Bool.andb_true_iff in Ho. destruct Ho as [Ho Hv].
-    apply Bool.andb_true_iff in Ho. destruct Ho as [Hr Hs].
+    apply Bool.andb_true_iff in Ho. destruct Ho as [Ho Hs].
+    apply Bool.andb_true_iff in Ho. destruct Ho as [Hr Hl].
     unfold add_operation. destruct acc as [tm done]. destruct (op_name o); [exact I|].
     destruct (mem_str _ go_keywords); [exact I|].
-    apply np_bind; [apply pp_np; exact I|]. intros D _.
+    apply np_bind; [apply pp_np; [exact I | exact (pos_of_in_range _ _ _ Hl)]|]. intros D _.
     apply np_bind; [apply convert_arguments_np, Hv|]. intros [inp tm1] _.
     apply np_bind; [apply convert_operation_np; assumption|]. intros [resp tm2] _. exact I.
   Qed.
 
-  Theorem generate_types_np ops : forallb (op_okb2 sch frags) ops = true -> np_res (generate_types sch cfg frags srcs ops).
+  Theorem generate_types_np ops : forallb (op_okb2 sch frags srcs) ops = true -> np_res (generate_types sch cfg frags srcs ops).
   Proof.
     intro Ho. unfold generate_types. apply np_mfold. intros acc o Hin. apply add_operation_np.
     rewrite forallb_forall in Ho. exact (Ho o Hin).
@@ -672,14 +683,99 @@ Section Full.
 End Full.
 
 (* For every schema, configuration, fragment table, source text and operation list of the shape
-   the validator and the preprocessing guarantee, the converter never panics. *)
+   the validator and the preprocessing guarantee, with every position inside its source, the
+   converter never panics. *)
 Theorem converter_never_panics sch cfg frags srcs ops :
-  schema_okb sch = true -> frags_okb2 sch frags = true -> forallb (op_okb2 sch frags) ops = true ->
+  schema_okb sch = true -> frags_okb2 sch frags srcs = true -> forallb (op_okb2 sch frags srcs) ops = true ->
   forall s, generate_types sch cfg frags srcs ops <> Panic s.
 Proof.
   intros H1 H2 H3 s E. pose proof (generate_types_np sch cfg frags srcs H1 H2 ops H3) as H. rewrite E in H. exact H.
 Qed.
 
 Example w_program_is_wf2 :
-  schema_okb w_schema = true /\ frags_okb2 w_schema [w_frag] = true /\ forallb (op_okb2 w_schema [w_frag]) [w_op] = true.
+  schema_okb w_schema = true /\ frags_okb2 w_schema [w_frag] w_srcs = true
+  /\ forallb (op_okb2 w_schema [w_frag] w_srcs) [w_op] = true.
 Proof. repeat split; vm_compute; reflexivity. Qed.
+
+(* ---- the strong form implies every hypothesis of the partial theorem (Proofs/ConvertNoPanic.v):
+   names resolve and positions are in range.  Corr/Convcorr.v evaluates the strong form only. ---- *)
+Lemma forallb_Forall_imp {A} (p q : A -> bool) (l : list A) :
+  Forall (fun x => p x = true -> q x = true) l -> forallb p l = true -> forallb q l = true.
+Proof.
+  induction 1 as [|x r Hx Hr IH]; cbn [forallb]; [reflexivity|]. intro H.
+  apply Bool.andb_true_iff in H. destruct H as [H1 H2]. rewrite (Hx H1), (IH H2). reflexivity.
+Qed.
+
+Lemma forallb_conj_imp {A} (p q r : A -> bool) (l : list A) :
+  Forall (fun x => p x = true -> q x = true /\ r x = true) l ->
+  forallb p l = true -> forallb q l = true /\ forallb r l = true.
+Proof.
+  induction 1 as [|x t Hx Ht IH]; cbn [forallb]; [split; reflexivity|]. intro H.
+  apply Bool.andb_true_iff in H. destruct H as [H1 H2]. destruct (Hx H1) as [Hq Hr]. destruct (IH H2) as [Hq2 Hr2].
+  rewrite Hq, Hr, Hq2, Hr2. split; reflexivity.
+Qed.
+
+Section StrongWeak.
+  Variable sch : schema.
+  Variable frags : list fragment.
+  Variable srcs : list (list lkind).
+
+  Lemma sel_okb2_weak src s :
+    sel_okb2 sch frags srcs src s = true -> sel_okb sch frags s = true /\ sel_posb srcs src s = true.
+  Proof.
+    induction s as [a n t p e sub l IH|c e sub l IH|n e l] using sel_ind'; cbn [sel_okb2 sel_okb sel_posb]; intro H.
+    - apply Bool.andb_true_iff in H. destruct H as [H Hsub].
+      apply Bool.andb_true_iff in H. destruct H as [H Hl].
+      apply Bool.andb_true_iff in H. destruct H as [H _].
+      apply Bool.andb_true_iff in H. destruct H as [_ Hty].
+      rewrite Hty, Hl. cbn [andb]. exact (forallb_conj_imp _ _ _ _ IH Hsub).
+    - apply Bool.andb_true_iff in H. destruct H as [H Hsub].
+      apply Bool.andb_true_iff in H. destruct H as [H Hl].
+      apply Bool.andb_true_iff in H. destruct H as [Hc _].
+      rewrite Hc, Hl. cbn [andb]. exact (forallb_conj_imp _ _ _ _ IH Hsub).
+    - apply Bool.andb_true_iff in H. exact H.
+  Qed.
+
+  Lemma sels_okb2_weak src sels :
+    sels_okb2 sch frags srcs src sels = true ->
+    forallb (sel_okb sch frags) sels = true /\ forallb (sel_posb srcs src) sels = true.
+  Proof.
+    intro H. unfold sels_okb2 in H. apply Bool.andb_true_iff in H. destruct H as [_ H].
+    assert (F : Forall (fun x => sel_okb2 sch frags srcs src x = true -> sel_okb sch frags x = true /\ sel_posb srcs src x = true) sels)
+      by (apply Forall_forall; intros x _; apply sel_okb2_weak).
+    exact (forallb_conj_imp _ _ _ _ F H).
+  Qed.
+
+  Lemma frag_okb2_weak fr :
+    frag_okb2 sch frags srcs fr = true -> frag_okb sch frags fr = true /\ frag_posb srcs fr = true.
+  Proof.
+    intro H. unfold frag_okb2 in H. apply Bool.andb_true_iff in H. destruct H as [H Hs].
+    apply Bool.andb_true_iff in H. destruct H as [Hon Hl].
+    destruct (sels_okb2_weak _ _ Hs) as [Hw Hp]. unfold frag_okb, frag_posb. rewrite Hon, Hl, Hw, Hp. split; reflexivity.
+  Qed.
+
+  Lemma op_okb2_weak o :
+    op_okb2 sch frags srcs o = true -> op_okb sch frags o = true /\ op_posb srcs o = true.
+  Proof.
+    intro H. unfold op_okb2 in H. apply Bool.andb_true_iff in H. destruct H as [H Hv].
+    apply Bool.andb_true_iff in H. destruct H as [H Hs].
+    apply Bool.andb_true_iff in H. destruct H as [Hr Hl].
+    destruct (sels_okb2_weak _ _ Hs) as [Hw Hp]. unfold op_okb, op_posb. rewrite Hr, Hl, Hw, Hp. cbn [andb].
+    split; (eapply forallb_Forall_imp; [|exact Hv]); apply Forall_forall; intros v _ Hvv;
+      apply Bool.andb_true_iff in Hvv; destruct Hvv as [Hty Hlv]; assumption.
+  Qed.
+
+  Theorem strong_wf_implies_weak ops :
+    frags_okb2 sch frags srcs = true -> forallb (op_okb2 sch frags srcs) ops = true ->
+    frags_okb sch frags = true /\ forallb (op_okb sch frags) ops = true
+    /\ frags_posb srcs frags = true /\ forallb (op_posb srcs) ops = true.
+  Proof.
+    intros Hf Ho. unfold frags_okb2 in Hf. unfold frags_okb, frags_posb.
+    assert (Ff : Forall (fun x => frag_okb2 sch frags srcs x = true -> frag_okb sch frags x = true /\ frag_posb srcs x = true) frags)
+      by (apply Forall_forall; intros x _; apply frag_okb2_weak).
+    assert (Fo : Forall (fun x => op_okb2 sch frags srcs x = true -> op_okb sch frags x = true /\ op_posb srcs x = true) ops)
+      by (apply Forall_forall; intros x _; apply op_okb2_weak).
+    destruct (forallb_conj_imp _ _ _ _ Ff Hf) as [A1 A2]. destruct (forallb_conj_imp _ _ _ _ Fo Ho) as [B1 B2].
+    repeat split; assumption.
+  Qed.
+End StrongWeak.
